@@ -401,6 +401,12 @@ pub fn run(seed: u64, tier: &str, w: &mut dyn Write) -> usize {
     // (asserted by the prover), i.e. the reductions of the maximal size stop because of the cap height
     let cfg_m1 = stark_config(1, 3, 2, 1, 1, 2);  // arity 2: 2^3..2^max all end with 4 coefficients
     n += multi(w, &mut r, "fib-m1", Kind::Fib, fib, &cfg_m1, 3, if thorough { 8 } else { 6 }, thorough);
+    // arity 16 (the library test's shape) in a circuit for 2^10: the proofs of 2^7..2^9 rows have as many FRI
+    // steps as the circuit but a SHORTER final polynomial; 2^4..2^6 have fewer steps as well
+    if !thorough {
+        let cfg_m2q = stark_config(1, 4, 3, 4, 5, 2);
+        n += multi(w, &mut r, "fib-m2q", Kind::Fib, fib, &cfg_m2q, 5, 10, false);
+    }
     if thorough {
         let cfg_m2 = stark_config(1, 4, 3, 4, 5, 2); // the library test's shape: arity 16, 2^4..2^14
         n += multi(w, &mut r, "fib-m2", Kind::Fib, fib, &cfg_m2, 4, 14, true);
